@@ -1,4 +1,7 @@
 import A5.Lemmas.BoundarySkel
+import Mathlib.Tactic.Linarith
+import Mathlib.Algebra.Order.Field.Basic
+import Mathlib.Algebra.Order.Field.Rat
 /-! # C11 — shape of the reported cell boundary
 
 "For every cell and every edge subdivision n ≥ 1, the reported boundary has exactly vertices·n points
@@ -10,7 +13,8 @@ libm, about which nothing numeric is provable; everything below is about the *li
 for arbitrary float sub-results: the theorems quantify over every id, every `n`, both ring modes.
 What is NOT covered here: that the points lie on the cell's edges / that corners are the geographic
 corners (this stays with the differential correspondence check and the search), and that the call
-succeeds (`.ok`) at all — the theorems are conditional on success. -/
+succeeds (`.ok`) at all — the theorems are conditional on success.
+T1–T3 are core-only; T4 (longitude window over exact ordered fields) uses Mathlib's `linarith`. -/
 namespace A5.C11
 open A5
 
@@ -146,5 +150,116 @@ example : cellToBoundary 0 true (some 7) = .ok [] := ring_world 0 true (some 7) 
 /-- the list-level corner lemma on a concrete triangle split in 4: 12 points, corners at 0, 4, 8 -/
 example (a b c : V2) : (splitPts [a, b, c] 4).length = 12 ∧ (splitPts [a, b, c] 4)[2 * 4]? = some c :=
   ⟨splitPts_length _ 4 (by omega), splitPts_corner [a, b, c] 4 2 (by omega) (by show 2 < 3; omega)⟩
+
+/-! ## T4 — the longitude window, over exact ordered fields (uses Mathlib's `linarith`) -/
+
+section field
+variable {K : Type} [Field K] [LinearOrder K] [IsStrictOrderedRing K]
+
+theorem unwrapUp_window_aux : ∀ (fuel : Nat) (lon center l : K),
+    unwrapUpG (180 : K) 360 fuel lon center = .ok l → lon - center ≤ 180 →
+    -180 ≤ l - center ∧ l - center ≤ 180 ∧ ∃ k : Int, l - lon = 360 * (k : K) := by
+  intro fuel
+  induction fuel with
+  | zero => intro lon center l h; cases h
+  | succ n ih =>
+    intro lon center l h hle
+    unfold unwrapUpG at h
+    by_cases hc : lon - center < -180
+    · rewrite [if_pos hc] at h
+      obtain ⟨h1, h2, k, hk⟩ := ih _ _ _ h (by linarith)
+      refine ⟨h1, h2, k + 1, ?_⟩
+      push_cast
+      linarith
+    · rewrite [if_neg hc] at h
+      cases Outcome.ok.inj h
+      exact ⟨by linarith, hle, 0, by simp⟩
+
+/-- T4a. Over any linearly ordered field (exact arithmetic): if the two unwrapping loops of
+`normalize_longitudes` terminate with `l`, then `l` lies in the window `center ± 180` and differs from
+the input longitude by an integer multiple of 360.  `unwrapLonG` is the generic twin of the Float model
+`unwrapLon` (`unwrap_twin_is_model`: equal at `Float` with the literals 180.0/360.0); the theorem is about
+the twin over exact fields, NOT about IEEE doubles. -/
+theorem unwrap_window : ∀ (fuel : Nat) (lon center l : K),
+    unwrapLonG (180 : K) 360 fuel lon center = .ok l →
+    -180 ≤ l - center ∧ l - center ≤ 180 ∧ ∃ k : Int, l - lon = 360 * (k : K) := by
+  intro fuel
+  induction fuel with
+  | zero => intro lon center l h; cases h
+  | succ n ih =>
+    intro lon center l h
+    unfold unwrapLonG at h
+    by_cases hc : lon - center > 180
+    · rewrite [if_pos hc] at h
+      obtain ⟨h1, h2, k, hk⟩ := ih _ _ _ h
+      refine ⟨h1, h2, k - 1, ?_⟩
+      push_cast
+      linarith
+    · rewrite [if_neg hc] at h
+      by_cases hd : lon - center < -180
+      · rewrite [if_pos hd] at h
+        obtain ⟨h1, h2, k, hk⟩ := unwrapUp_window_aux _ _ _ _ h (by linarith)
+        refine ⟨h1, h2, k + 1, ?_⟩
+        push_cast
+        linarith
+      · rewrite [if_neg hd] at h
+        cases Outcome.ok.inj h
+        exact ⟨by linarith, by linarith, 0, by simp⟩
+
+theorem unwrapUp_fuel_aux : ∀ (n : Nat) (lon center : K), -180 - 360 * (n : K) ≤ lon - center →
+    ∃ l, unwrapUpG (180 : K) 360 (n + 1) lon center = .ok l := by
+  intro n
+  induction n with
+  | zero =>
+    intro lon center h
+    unfold unwrapUpG
+    rewrite [if_neg (by simp at h; linarith)]
+    exact ⟨_, rfl⟩
+  | succ n ih =>
+    intro lon center h
+    unfold unwrapUpG
+    by_cases hc : lon - center < -180
+    · rewrite [if_pos hc]
+      exact ih _ _ (by push_cast at h; linarith)
+    · rewrite [if_neg hc]; exact ⟨_, rfl⟩
+
+/-- T4b. Fuel: if `|lon − center| ≤ 180 + 360·n` then `n + 1` units of fuel suffice (the model uses 64). -/
+theorem unwrap_fuel : ∀ (n : Nat) (lon center : K), lon - center ≤ 180 + 360 * (n : K) →
+    -180 - 360 * (n : K) ≤ lon - center →
+    ∃ l, unwrapLonG (180 : K) 360 (n + 1) lon center = .ok l := by
+  intro n
+  induction n with
+  | zero =>
+    intro lon center h1 h2
+    unfold unwrapLonG
+    simp at h1 h2
+    rewrite [if_neg (by linarith), if_neg (by linarith)]
+    exact ⟨_, rfl⟩
+  | succ n ih =>
+    intro lon center h1 h2
+    unfold unwrapLonG
+    push_cast at h1 h2
+    by_cases hc : lon - center > 180
+    · rewrite [if_pos hc]
+      exact ih _ _ (by linarith) (by linarith)
+    · rewrite [if_neg hc]
+      by_cases hd : lon - center < -180
+      · rewrite [if_pos hd]
+        exact unwrapUp_fuel_aux n _ _ (by linarith)
+      · rewrite [if_neg hd]; exact ⟨_, rfl⟩
+end field
+
+/-- T4c. The Float model's loop is the generic twin instantiated at `Float`. -/
+theorem unwrap_twin_is_model (fuel : Nat) (lon center : Float) :
+    unwrapLon fuel lon center = unwrapLonG (180.0 : Float) 360.0 fuel lon center :=
+  unwrapLon_eq_twin fuel lon center
+
+/-- non-vacuity over ℚ: longitude 550 around centre 0 unwraps (with 3 units of fuel) into the window -/
+example : ∃ l : ℚ, unwrapLonG (180 : ℚ) 360 3 550 0 = .ok l ∧ -180 ≤ l - 0 ∧ l - 0 ≤ 180 := by
+  obtain ⟨l, hl⟩ := unwrap_fuel (K := ℚ) 2 550 0 (by norm_num) (by norm_num)
+  exact ⟨l, hl, (unwrap_window _ _ _ _ hl).1, (unwrap_window _ _ _ _ hl).2.1⟩
+
+/-- world aliases (ids without marker bit, e.g. 1) have the empty boundary too -/
+example : cellToBoundary 1 false none = .ok [] := ring_world 1 false none (by decide)
 
 end A5.C11
